@@ -8,6 +8,7 @@ import (
 	"go/types"
 	"math"
 	"os"
+	"unsafe"
 
 	"gosym/smt"
 )
@@ -446,6 +447,9 @@ func equalsV(i *interpreter, t types.Type, x, y value) value {
 		return x == y.(*value)
 	case chan value:
 		return x == y.(chan value)
+	case unsafe.Pointer:
+		yp, ok := y.(unsafe.Pointer)
+		return ok && x == yp
 	case structure:
 		ys := y.(structure)
 		tStruct := t.Underlying().(*types.Struct)
